@@ -240,4 +240,124 @@ pub proof fn lemma_ref_path_ops_valid(o: Seq<u8>, seg: Seq<u8>)
     lemma_sym_push_fits(p, seg, fa, at0); lemma_sym_push_valid(p, seg, fa, at0); lemma_path_edit_valid(o, sym_push_text(p, seg, fa, at0));
     lemma_normalize_fits(p, fa, at0); lemma_normalize_valid(p, fa, at0); lemma_path_edit_valid(o, normalize_text(p, fa, at0));
 }
+
+// ---- resolution (C06 / C04): the resolved text is a valid URI ----
+/// certificate comp_uri_path_algebra::comp_slashfree_path_is_segment
+#[verifier::external_body]
+pub proof fn axiom_slashfree_path_is_segment(x: Seq<u8>)
+    requires lang_path(x), no_slash(x),
+    ensures lang_segment(x),
+{}
+pub open spec fn all_segments(l: Seq<Seq<u8>>) -> bool { forall|i: int| 0 <= i < l.len() ==> lang_segment(#[trigger] l[i]) && seg_shape(l[i]) }
+/// the pieces of a valid path are valid segments
+proof fn lemma_segs_are_segments(p: Seq<u8>)
+    requires lang_path(p), path_shape(p),
+    ensures all_segments(segs(p)),
+{
+    lemma_segs_valid(p);
+    lemma_segs_shape(p);
+    let l = segs(p);
+    assert forall|i: int| 0 <= i < l.len() implies lang_segment(#[trigger] l[i]) && seg_shape(l[i]) by {
+        assert(lang_path(l[i])); assert(seg_shape(l[i]));
+        assert(no_slash(l[i])) by { assert forall|j: int| 0 <= j < l[i].len() implies #[trigger] l[i][j] != 47 by { assert(!cls(C_SQF, l[i][j])); } }
+        axiom_slashfree_path_is_segment(l[i]);
+    }
+}
+proof fn lemma_sym_fold_valid(p: Seq<u8>, l: Seq<Seq<u8>>, fa: bool, at0: bool)
+    requires lang_path(p), all_segments(l),
+    ensures lang_path(sym_fold(p, l, fa, at0).0),
+    decreases l.len()
+{
+    if l.len() > 0 {
+        assert forall|i: int| 0 <= i < l.drop_last().len() implies lang_segment(#[trigger] l.drop_last()[i]) && seg_shape(l.drop_last()[i]) by { assert(l.drop_last()[i] == l[i]); }
+        lemma_sym_fold_valid(p, l.drop_last(), fa, at0);
+        assert(lang_segment(l.last()));
+        lemma_sym_push_valid(sym_fold(p, l.drop_last(), fa, at0).0, l.last(), fa, at0);
+    }
+}
+proof fn lemma_sym_append_valid(p: Seq<u8>, l: Seq<Seq<u8>>, fa: bool, at0: bool)
+    requires lang_path(p), all_segments(l),
+    ensures lang_path(sym_append_text(p, l, fa, at0)),
+{
+    axiom_path_consts();
+    lemma_sym_fold_valid(p, l, fa, at0);
+    lemma_push_valid(sym_fold(p, l, fa, at0).0, sq0(), fa, at0);
+}
+proof fn lemma_fit_path_valid(sch: Option<Seq<u8>>, au: Option<Seq<u8>>, p: Seq<u8>)
+    requires lang_path(p),
+    ensures lang_path(fit_path(sch, au, p)),
+{
+    axiom_path_prefix(p);
+}
+proof fn lemma_rds_valid(p: Seq<u8>, fa: bool, at0: bool)
+    requires lang_path(p),
+    ensures lang_path(rds_text(p, fa, at0)),
+{
+    axiom_path_consts();
+    lemma_normalize_valid(p, fa, at0);
+    lemma_push_valid(normalize_text(p, fa, at0), sq0(), fa, at0);
+}
+proof fn lemma_dir_end_slash(p: Seq<u8>, e: int)
+    requires 0 <= e <= p.len(),
+    ensures 0 <= seg_start_of(p, 0, e) <= e, seg_start_of(p, 0, e) > 0 ==> p[seg_start_of(p, 0, e) - 1] == 47,
+    decreases e
+{
+    if !(e <= 0) && p[e - 1] != 47 { lemma_dir_end_slash(p, e - 1); }
+}
+proof fn lemma_parent_valid(p: Seq<u8>)
+    requires lang_path(p),
+    ensures lang_path(parent_text(p)),
+{
+    axiom_path_consts();
+    let d = dir_end(p);
+    lemma_dir_end_slash(p, p.len() as int);
+    if p_is_empty(p) || d == 0 { }
+    else if d == 1 { }
+    else if d == 2 && p[0] == 47 {
+        axiom_path_concat(sq1(47), sq2(46, 47));
+        assert(sq3(47, 46, 47) =~= sq1(47) + sq2(46, 47));
+    } else {
+        let u = p.subrange(0, d - 1);
+        let v = p.subrange(d - 1, p.len() as int);
+        assert(u + v =~= p);
+        assert(v[0] == 47);
+        axiom_path_split(u, v);
+    }
+}
+/// C06 / C04: the text in-place resolution leaves (its proved postcondition res_select) is a valid URI reference with a
+/// scheme, i.e. a valid URI, whenever the reference and the base were valid
+pub proof fn lemma_resolve_valid(r: Seq<u8>, b: Seq<u8>, n: Seq<u8>)
+    requires lang_uriref(r), lang_uri(b), res_select(r, b, n),
+    ensures lang_uriref(n), lang_uri(n),
+{
+    axiom_uriref_facts(r);
+    axiom_uri_facts(b);
+    lemma_uriref_components(r);
+    lemma_uriref_components(b);
+    lemma_ref_pieces(r); lemma_ref_pieces(b);
+    reveal(path_fits);
+    let pr = r_path(r); let pb = r_path(b);
+    lemma_rds_valid(pr, x_has_auth(r), false);
+    lemma_rds_valid(pr, true, false);
+    lemma_rds_valid(pr, x_has_auth(b), false);
+    if !x_has_sch(r) && !x_has_auth(r) && pr.len() > 0 && pr[0] != 47 {
+        let fa = x_has_auth(b);
+        let sch = r_scheme(b);
+        axiom_path_prefix(pr);
+        axiom_path_consts();
+        let rp = if fa { make_abs(pr) } else { pr };
+        assert(path_shape(rp)) by { assert(path_shape(pr)); if fa { assert forall|j: int| 0 <= j < rp.len() implies !cls(C_QF, #[trigger] rp[j]) by { if j > 0 { assert(rp[j] == pr[j - 1]); } } } }
+        lemma_segs_are_segments(rp);
+        lemma_fit_path_valid(sch, r_auth(b), sq1(47));
+        lemma_parent_valid(pb);
+        lemma_fit_path_valid(sch, r_auth(b), parent_text(pb));
+        lemma_normalize_valid(fit_path(sch, r_auth(b), parent_text(pb)), fa, false);
+        let dir = if fa && p_is_empty(pb) { fit_path(sch, r_auth(b), sq1(47)) } else { normalize_text(fit_path(sch, r_auth(b), parent_text(pb)), fa, false) };
+        lemma_sym_append_valid(dir, segs(rp), fa, false);
+        lemma_fit_path_valid(sch, r_auth(b), sym_append_text(dir, segs(rp), fa, false));
+    }
+    assert(lang_path(r_path(n)));
+    lemma_uriref_compose(n);
+    axiom_uriref_facts(n);
+}
 } // verus!
